@@ -100,7 +100,7 @@ pub fn pres_to_json(p: &Presentation) -> Value {
     json!({
         "decl_order": p.decl_order, "single_as_struct": p.single_as_struct,
         "styles": p.styles.iter().map(|s| json!([s.named, s.skip_mask])).collect::<Vec<_>>(),
-        "layout": p.layout, "naming": p.naming, "attribute": p.attribute, "payload": p.payload,
+        "layout": p.layout, "naming": p.naming, "attribute": p.attribute, "payload": p.payload, "names": p.names,
     })
 }
 
@@ -113,6 +113,7 @@ pub fn pres_from_json(v: &Value) -> Option<Presentation> {
         naming: v["naming"].as_u64()? as u8,
         attribute: v["attribute"].as_str()?.to_string(),
         payload: v["payload"].as_str()?.to_string(),
+        names: v["names"].as_object().map(|m| m.iter().filter_map(|(k, x)| Some((k.clone(), x.as_str()?.to_string()))).collect()).unwrap_or_default(),
     })
 }
 
@@ -189,6 +190,8 @@ impl Acc {
 pub enum Spec {
     G(Scope),
     Nbh { seed: &'static str, k: usize, cap: usize },
+    /// the exhaustive presentation space of pspace.rs
+    PSpace { max_fields: usize, recursion: bool },
 }
 
 impl Spec {
@@ -196,6 +199,7 @@ impl Spec {
         match self {
             Spec::G(s) => s.name(),
             Spec::Nbh { seed, k, .. } => format!("Nbh({seed},{k})"),
+            Spec::PSpace { max_fields, recursion } => format!("PresentationSpace(fields<={max_fields}{})", if *recursion { ",recursive" } else { "" }),
         }
     }
 }
@@ -279,6 +283,24 @@ pub fn sweep(specs: &[Spec], budget_s: f64, per_case: &(dyn Fn(&Case, u64, &mut 
                     })
                     .collect();
                 (accs, json!({"neighbourhood_size": list.len(), "neighbourhood_capped_at": if was_capped { json!(cap) } else { Value::Null }}))
+            }
+            Spec::PSpace { max_fields, recursion } => {
+                let pats = crate::pspace::patterns(*max_fields, *recursion);
+                let accs: Vec<Acc> = pats
+                    .par_chunks(32)
+                    .enumerate()
+                    .map(|(ci, chunk)| {
+                        let mut acc = Acc::default();
+                        for (j, p) in chunk.iter().enumerate() {
+                            let (gr, pres, _) = crate::pspace::build(p);
+                            let case = Case::new(gr, pres);
+                            per_case(&case, ((ci * 32 + j) as u64) | (1 << 61), &mut acc);
+                            acc.inc("grammars");
+                        }
+                        acc
+                    })
+                    .collect();
+                (accs, json!({"patterns": pats.len()}))
             }
         };
         let mut sacc = Acc::default();
